@@ -206,6 +206,12 @@ fn arith<const N: usize>(t: &mut Tape<'_>, o: &mut Obs) -> R {
     ensure_eq!(x == y, av == bv, "eq");
     ensure_eq!(x < y, av < bv, "lt");
     ensure_eq!(x >= y, av >= bv, "ge");
+    ensure_eq!(x <= y, av <= bv, "le");
+    ensure_eq!(x > y, av > bv, "gt");
+    ensure_eq!(x != y, av != bv, "ne");
+    ensure!(x <= x && x >= x && !(x < x) && !(x > x) && x == x, "cmp.reflexive", "comparison operators on equal operands {}", hx(&av));
+    ensure_eq!(big(&x.max(y).0), av.clone().max(bv.clone()), "max");
+    ensure_eq!(big(&x.min(y).0), av.clone().min(bv.clone()), "min");
     // bit-wise operators (by value, by reference, assigning)
     ensure_eq!(big(&(x & y).0), &av & &bv, "bitand");
     ensure_eq!(big(&(x | y).0), &av | &bv, "bitor");
